@@ -415,6 +415,9 @@ def families(tier):
     from .c16 import ops_alphabet
     ops = [o for o in ops_alphabet() if o[0] in ('setitem', 'setslice', 'insert', 'delitem')]
     fams.append(('after-mutation', 'vf.props.c16', 'fam_path_history', {'k': 1, 'first_ops': ops, 'prequery': True}))
+    # T2t/point of a reversed() copy of a path whose lengths are cached, and of the original afterwards: shared with C09
+    for n in (2, 3):
+        fams.append(('reversed-after-query-n%d' % n, 'vf.props.c09', 'fam_reversed_after_query', {'n': n}))
     fams.append(('fp-n3', M, 'fam_fp_totality', {'n': 3, 'timeout_s': 150 if tier == 'quick' else 900}))
     if tier == 'thorough':
         fams.append(('fp-n2', M, 'fam_fp_totality', {'n': 2, 'timeout_s': 900}))
